@@ -9,7 +9,7 @@ use string_calculator::ParseError;
 
 fn fb(x: f64) -> String { if x.is_nan() { "nan".into() } else { format!("{:016x}", x.to_bits()) } }
 fn show<T>(r: std::thread::Result<Result<T, ParseError>>, f: impl Fn(&T) -> String) -> String {
-    match r { Ok(Ok(v)) => format!("ok:{}", f(&v)), Ok(Err(_)) => "err".into(), Err(_) => "panic".into() }
+    match r { Ok(Ok(v)) => format!("ok:{}", f(&v)), Ok(Err(e)) => format!("err:{:?}", e).replace(char::from(9), " ").replace(char::from(10), " "), Err(_) => "panic".into() }
 }
 
 #[cfg(feature = "want_eval_f64")]
